@@ -4,6 +4,7 @@ from_str, FEEL literals and string(), xsd input conversion of the working tree v
 property (plain shape, JSON shape, exact value, read-back) are evaluated on the implementation's own output."""
 import json
 import re
+import decimal
 from decimal import Decimal
 
 from vlib import core
@@ -13,6 +14,9 @@ HEADER = ('From Coq Require Import ZArith NArith List Ascii String.\nFrom DV Req
 
 HEADER_RB = ('From Coq Require Import ZArith NArith List Ascii String.\nFrom DV Require Import Base.Dec C07.Model C07.Reader.\n'
              'Import ListNotations.\nOpen Scope string_scope.\n')
+
+HEADER_LIT = ('From Coq Require Import ZArith NArith List Ascii String.\nFrom DV Require Import Base.Dec C07.Model C07.Literal.\n'
+              'Import ListNotations.\nOpen Scope string_scope.\n')
 
 PLAIN = re.compile(r'-?[0-9]+(\.[0-9]+)?\Z')
 JSONNUM = re.compile(r'-?(0|[1-9][0-9]*)(\.[0-9]+)?([eE][+-]?[0-9]+)?\Z')
@@ -169,37 +173,190 @@ def read_back_section(ctx, cases, printed, hist):
         ctx.violation('a plain numeral beyond the decimal128 range is not refused by from_str: %s' % json.dumps(big)[:200], {'op': 'parse', 'a': '1e6145 written out'}, impl=big)
 
 
-def literal_cases(ctx):
-    """FEEL numeric literals of up to 34 significant digits, with their exact value."""
+# decimal128 as an independent oracle (CPython's mpdecimal): precision 34, half-even, subnormals, clamping; overflow -> Infinity
+D128 = decimal.Context(prec=34, rounding=decimal.ROUND_HALF_EVEN, Emin=-6143, Emax=6144, clamp=1, traps=[])
+
+
+def oracle(text):
+    """the correctly rounded decimal128 value of a numeral text; None when it overflows"""
+    d = D128.create_decimal(text)
+    return None if d.is_infinite() or d.is_nan() else d
+
+
+def sig_len(ip, fp):
+    return len((ip + fp).lstrip('0'))
+
+
+def token_of(text):
+    """the lexer's Numeric(before, after) of an unsigned FEEL literal"""
+    if text.startswith('.'):
+        return '0', text[1:]
+    ip, _, fp = text.partition('.')
+    return ip, fp
+
+
+def mantissas(ctx):
+    """(ip, fp) pairs: 1..34 significant digits (exact), exactly 34 / 35 / 36 and more (ties, near-ties, all nines, carries), with leading
+    zeros behind the point, with trailing zeros, texts far longer than 42 characters, and the borders of the range."""
     r = ctx.rng
-    out = []
-    fixed = [('0', ''), ('0', '0'), ('00012', '5000'), ('1', ''), ('', '5'), ('0', '00000015'), ('123456789012345678901234567890', '1234'),
-             ('0', '0' * 40 + '1234567890123456789012345678901234'), ('9' * 34, ''), ('1' + '0' * 60, ''), ('0', '0' * 6142 + '1' * 34)]
-    for _ in range(ctx.pick(300, 5000)):
+    out = [('0', ''), ('0', '0'), ('00012', '5000'), ('1', ''), ('', '5'), ('0', '00000015'), ('0', '10'), ('123456789012345678901234567890', '1234'),
+           ('0', '0' * 40 + '1234567890123456789012345678901234'), ('9' * 34, ''), ('1' + '0' * 60, ''), ('0', '0' * 6142 + '1' * 34),
+           ('0', '0' * 10 + '1234567890123456789012345678901234'),        # the 46-character literal of seeded/C07_d
+           ('1' + '0' * 50, ''), ('1' + '0' * 41, ''), ('1' + '0' * 42, ''), ('0', '0' * 42 + '123'), ('0', '0' * 39 + '1'), ('0', '0' * 40 + '1'), ('0', '0' * 41 + '1'),
+           # 35 / 36 digits: exact ties to even, both parities, near-ties, carries
+           ('12345678901234567890123456789012345', ''), ('12345678901234567890123456789012355', ''), ('1234567890123456789012345678901234', '5'),
+           ('1234567890123456789012345678901235', '5'), ('1234567890123456789012345678901234', '51'), ('1234567890123456789012345678901234', '49'),
+           ('1234567890123456789012345678901234', '50'), ('1234567890123456789012345678901235', '50'), ('1' + '0' * 33 + '5', ''), ('1' + '0' * 33 + '15', ''),
+           ('9' * 35, ''), ('9' * 36, ''), ('9' * 34, '5'), ('9' * 34, '4' + '9' * 20), ('0', '0' * 12 + '9' * 35), ('0', '0' * 45 + '1' * 33 + '25'), ('0', '0' * 45 + '1' * 33 + '35'),
+           # the borders of the range: subnormal quantum, underflow to zero, the largest numbers, overflow
+           ('0', '0' * 6175 + '1'), ('0', '0' * 6176 + '1'), ('0', '0' * 6176 + '5'), ('0', '0' * 6176 + '6'), ('0', '0' * 6176 + '51'), ('0', '0' * 6160 + '1234567890123456789012345678901234'),
+           ('0', '0' * 6170 + '123456789'), ('1' + '0' * 6144, ''), ('9' * 34 + '0' * 6111, ''), ('9' * 34 + '4' + '0' * 6110, ''), ('9' * 34 + '5' + '0' * 6110, ''), ('1' + '0' * 6145, '')]
+    for _ in range(ctx.pick(300, 5000)):            # 1..34 significant digits
         L = r.randint(1, 34)
         k = r.randint(0, L)
         digs = ''.join(r.choice('0123456789') for _ in range(L))
         ip, fp = digs[:k], digs[k:]
         if r.random() < 0.3:
-            fp = '0' * r.randint(1, 30) + fp
+            fp = '0' * r.randint(1, 45) + fp
             ip = ip.lstrip('0')
         if r.random() < 0.2:
             ip = ip + '0' * r.randint(1, 40) if ip.strip('0') else ip
             fp = fp.rstrip('0') if r.random() < 0.5 else ''
-            if len((ip + fp).lstrip('0').rstrip('0')) > 34:
-                continue
-        fixed.append((ip, fp))
-    for ip, fp in fixed:
-        if ip == '' and fp == '':
+        out.append((ip, fp))
+    for _ in range(ctx.pick(700, 8000)):            # exactly 34, 35, 36 and a few more significant digits
+        L = r.choice([34, 34, 35, 35, 35, 36, 36, 37, 40, 50])
+        digs = r.choice('123456789') + ''.join(r.choice('0123456789') for _ in range(L - 1))
+        if L > 34 and r.random() < 0.7:                # a tie or a near-tie behind the 34th digit, both parities of the 34th digit
+            tail = r.choice(['5', '50', '500', '49', '51', '4' + '9' * (L - 35), '5' + '0' * (L - 36) + '1', '05', '95', '499', '501'])
+            digs = (digs[:33] + r.choice('0123456789') + tail + digs[34 + len(tail):])[:max(L, 34 + len(tail))]
+        if r.random() < 0.15:
+            digs = '9' * r.randint(30, 34) + digs[34:]
+        c = r.random()
+        if c < 0.35:                                # behind the point, with leading zeros: long texts
+            ip, fp = r.choice(['0', '', '000']), '0' * r.choice([0, 1, 7, 9, 10, 40, 43, 100]) + digs
+        elif c < 0.7:
+            k = r.randint(1, len(digs))
+            ip, fp = digs[:k], digs[k:]
+        else:                                       # an integer, possibly with trailing zeros: long texts
+            ip, fp = digs + '0' * r.choice([0, 0, 0, 0, 1, 9, 30, 60]), ''
+        out.append((ip, fp))
+    return [(ip, fp) for ip, fp in out if ip or fp]
+
+
+def literal_section(ctx, hist):
+    """FEEL literals, typed input texts (xsd:decimal / xsd:integer / xsd:double) and FeelNumber::from_str on numerals of every length:
+    the code's value against the independent oracle (exact up to 34 significant digits, correctly rounded beyond, null / Err on
+    overflow) and the code's raw datum against the Coq reader model (C07/Literal.v literal_value / from_text)."""
+    r = ctx.rng
+    pairs = mantissas(ctx)
+    # ------------------------------------------------ FEEL literals
+    lits = [(ip + '.' + fp if fp else ip) if ip else '.' + fp for ip, fp in pairs]
+    freqs = []
+    for t in lits:
+        freqs.append({'e': t})
+        freqs.append({'e': 'string(-%s)' % t})
+    fimpl = ctx.run_impl('feel', freqs)
+    toks = [token_of(t) for t in lits]
+    raw = ctx.run_impl('num', [{'op': 'sci', 'a': b + '.' + a} for b, a in toks])      # the text build_numeric hands to from_str
+    small = [i for i, (b, a) in enumerate(toks) if sig_len(b, a) <= 400]
+    mres = ctx.run_model(HEADER_LIT, ['literal_sci "%s" "%s"' % toks[i] for i in small], shard_size=max(20, len(small) // 16 + 1), tag='lit')
+    model = dict(zip(small, mres))
+    for i, t in enumerate(lits):
+        ctx.evaluations += 1
+        ctx.corr_checked += 1
+        b, a = toks[i]
+        sig = sig_len(b, a)
+        want = oracle(b + '.' + a)
+        exact_v = Decimal(b + '.' + a)
+        cls = ('<34' if sig < 34 else '34' if sig == 34 else '35' if sig == 35 else '36' if sig == 36 else '>36') + (' digits' + (', text longer than 42 characters' if len(t) > 42 else ''))
+        hist['literal ' + cls] = hist.get('literal ' + cls, 0) + 1
+        ctx.nontrivial.add(('lit', min(sig, 37), len(t) > 42, bool(a), want is None, want is not None and want != exact_v))
+        case = {'literal': t}
+        lit, st = fimpl[2 * i], fimpl[2 * i + 1]
+        v = lit.get('v') if isinstance(lit, dict) else None
+        if 'v' not in lit:
+            ctx.violation('FEEL literal %s is not evaluated: %s' % (t[:60], json.dumps(lit)[:100]), case, impl=lit)
             continue
-        text = (ip + '.' + fp) if fp else ip
-        if ip == '':
-            text = '.' + fp
-        sig = (ip + fp).lstrip('0')
-        if len(sig.rstrip('0')) > 34 and len(sig) > 34:
+        if want is None:
+            if v is not None:
+                ctx.violation('FEEL literal %s (beyond the range of numbers) evaluates to %s instead of null' % (t[:60], json.dumps(v)[:80]), case, impl=lit)
             continue
-        out.append(text)
-    return out
+        if sig <= 34 and len(a) <= 6176 and want != exact_v:
+            ctx.violation('oracle disagrees with C07_literal_exact_upto_34 on %s' % t[:60], case, model=str(want))
+            continue
+        if not isinstance(v, dict) or 'n' not in v:
+            ctx.violation('FEEL literal %s does not evaluate to a number: %s' % (t[:60], json.dumps(lit)[:100]), case, impl=lit)
+            continue
+        if not same_value(v['n'], want) or not same_value(v['p'], want) or not PLAIN.match(v['p']):
+            what = 'exactly the value it denotes' if want == exact_v else 'the correctly rounded value %s' % want
+            ctx.violation('FEEL literal %s (%d significant digits) evaluates to %s, not to %s' % (t[:80], sig, v['n'], what), case, impl=v)
+            continue
+        sv = st.get('v')
+        if not isinstance(sv, str) or not PLAIN.match(sv) or not same_value(sv, want.copy_negate()):
+            ctx.violation('string(-%s) = %r is not the plain text of the value' % (t[:60], sv if not isinstance(sv, str) else sv[:80]), {'expression': 'string(-%s)' % t}, impl=st)
+            continue
+        if i in model:                               # the raw datum (coefficient and exponent, not only the value) against the reader model
+            m = model[i]
+            mt = m.args[0] if getattr(m, 'args', None) else None
+            g = raw[i].get('r')
+            if g in ('Infinity', '-Infinity'):
+                g = None
+            if g != mt:
+                ctx.corr_broken('decQuadFromString(before.after) vs literal_value', {'numeral': (b + '.' + a)[:100]}, raw[i].get('r'), mt)
+    # ------------------------------------------------ typed input data and from_str
+    texts = []
+    for ip, fp in pairs:
+        sign = r.choice(['', '', '-', '-', '+'])
+        form = r.random()
+        if form < 0.55 or not ip:
+            body, op = ((ip + '.' + fp) if fp or r.random() < 0.1 else ip) if ip else '.' + fp, r.choice(['xsd_decimal', 'xsd_decimal', 'xsd_double', 'parse'])
+        elif form < 0.75:
+            body, op = ip + fp, r.choice(['xsd_integer', 'xsd_integer', 'parse'])
+        else:
+            e = r.choice([0, 1, 3, -3, 10, -40, 41, 100, -6176 + len(fp), 6111, 6144 - len(ip), 6145 - len(ip), -6200, 7000]) if len(ip) + len(fp) < 100 else r.choice([0, 2, -5])
+            body = (ip + ('.' + fp if fp else '')) if ip else '.' + fp
+            body, op = body + r.choice(['E', 'e']) + (r.choice(['', '+']) if e >= 0 else '') + str(e), r.choice(['xsd_double', 'xsd_double', 'parse'])
+        texts.append((op, sign + body))
+    texts += [('xsd_decimal', '-12.50'), ('xsd_decimal', '+7'), ('xsd_decimal', '-.5'), ('xsd_decimal', '5.'), ('xsd_double', '1.5E3'), ('xsd_double', '-1.5e-3'), ('xsd_double', '0E3'),
+              ('xsd_double', '1E6144'), ('xsd_double', '1E6145'), ('parse', '12345678901234567890123456789012345E-1'), ('xsd_double', '-0'), ('xsd_integer', '-000')]
+    ximpl = ctx.run_impl('num', [{'op': op, 'a': t} for op, t in texts])
+    xraw = ctx.run_impl('num', [{'op': 'sci', 'a': t} for _, t in texts])
+    small = [i for i, (_, t) in enumerate(texts) if len(t.split('E')[0].split('e')[0].replace('.', '').lstrip('+-0')) <= 400 and abs(int(re.split('[eE]', t)[1]) if re.search('[eE]', t) else 0) <= 7000]
+    mres = ctx.run_model(HEADER_LIT, ['from_text_sci "%s"' % texts[i][1] for i in small], shard_size=max(20, len(small) // 16 + 1), tag='txt')
+    model = dict(zip(small, mres))
+    for i, (op, t) in enumerate(texts):
+        ctx.evaluations += 1
+        ctx.corr_checked += 1
+        want = oracle(t)
+        mant = re.split('[eE]', t)[0].lstrip('+-')
+        sig = len(mant.replace('.', '').lstrip('0'))
+        hist['typed ' + op] = hist.get('typed ' + op, 0) + 1
+        ctx.nontrivial.add(('txt', op, min(sig, 37), len(t) > 42, t[0] in '+-', 'e' in t.lower(), want is None))
+        x = ximpl[i]
+        req = {'op': op, 'a': t}
+        g = x.get('r')
+        if want is None:
+            if x.get('err') != 'parse':
+                ctx.violation('%s("%s") beyond the range of numbers is not refused: %s' % (op, t[:60], json.dumps(x)[:100]), req, impl=x)
+            continue
+        if not isinstance(g, dict):
+            ctx.violation('%s("%s") is not accepted: %s' % (op, t[:60], json.dumps(x)[:100]), req, impl=x)
+            continue
+        if not same_value(g['n'], want) or law_failure(g['p'], g['j'], g['rb'], want):
+            exact_here = sig <= 34 and want == Decimal(t)
+            ctx.violation('%s("%s") (%d significant digits) gives %s, printed %s, not %s' % (op, t[:80], sig, g['n'], g['p'][:60], 'the value it denotes' if exact_here else 'the correctly rounded value %s' % want), req, impl=g)
+            continue
+        if Decimal(g['n']).is_signed() != want.is_signed() and want != 0:
+            ctx.violation('%s("%s") has the wrong sign: %s' % (op, t[:60], g['n']), req, impl=g)
+            continue
+        if i in model:
+            m = model[i]
+            mt = m.args[0] if getattr(m, 'args', None) else None
+            gr = xraw[i].get('r')
+            if gr in ('Infinity', '-Infinity'):
+                gr = None
+            if gr != mt:
+                ctx.corr_broken('decQuadFromString vs from_text', {'numeral': t[:100]}, xraw[i].get('r'), mt)
 
 
 def run(ctx):
@@ -290,56 +447,25 @@ def run(ctx):
         hist['arith'] = hist.get('arith', 0) + 1
         if lf:
             ctx.violation('result of %s: %s' % (q['op'], lf[1]), q, impl=g)
-    # ---------------------------------------------------------------- 3. literals in FEEL text, string(), typed input data
-    lits = literal_cases(ctx)
-    freqs = []
-    for t in lits:
-        freqs.append({'e': t})
-        freqs.append({'e': 'string(-%s)' % t})
-    fimpl = ctx.run_impl('feel', freqs)
-    xreqs = [{'op': r.choice(['xsd_decimal', 'xsd_integer', 'xsd_double', 'parse']), 'a': ('-' if i % 2 else '') + t} for i, t in enumerate(lits)]
-    ximpl = ctx.run_impl('num', xreqs)
-    for i, t in enumerate(lits):
-        ctx.evaluations += 1
-        d = Decimal('0' + t)
-        representable = d == 0 or (d.adjusted() <= 6144 and d.as_tuple().exponent >= -6176)
-        if not representable:
-            continue
-        lit, st = fimpl[2 * i], fimpl[2 * i + 1]
-        case = {'literal': t}
-        v = lit.get('v')
-        ctx.corr_checked += 1
-        hist['literal'] = hist.get('literal', 0) + 1
-        if not isinstance(v, dict) or 'n' not in v:
-            ctx.violation('FEEL literal %s does not evaluate to a number: %s' % (t[:60], json.dumps(lit)[:100]), case, impl=lit)
-            continue
-        if not same_value(v['n'], d) or not same_value(v['p'], d) or not PLAIN.match(v['p']):
-            ctx.violation('FEEL literal %s evaluates to %s / prints %s' % (t[:60], v['n'], v['p'][:60]), case, impl=v)
-            continue
-        sv = st.get('v')
-        if not isinstance(sv, str) or not PLAIN.match(sv) or not same_value(sv, d.copy_negate()):
-            ctx.violation('string(-%s) = %r is not the plain text of the value' % (t[:60], sv if not isinstance(sv, str) else sv[:80]), {'expression': 'string(-%s)' % t}, impl=st)
-            continue
-        x = ximpl[i]
-        xd = d.copy_negate() if i % 2 else d
-        g = x.get('r')
-        if not isinstance(g, dict):
-            ctx.violation('%s("%s") is not accepted: %s' % (xreqs[i]['op'], xreqs[i]['a'][:60], json.dumps(x)[:100]), xreqs[i], impl=x)
-            continue
-        if not same_value(g['n'], xd) or law_failure(g['p'], g['j'], g['rb'], xd):
-            ctx.violation('%s("%s") gives %s, printed %s' % (xreqs[i]['op'], xreqs[i]['a'][:60], g['n'], g['p'][:60]), xreqs[i], impl=g)
+    # ---------------------------------------------------------------- 3. literals in FEEL text, string(), typed input data, from_str
+    literal_section(ctx, hist)
     return ctx.finish(
         rule='finite decimal128 data (sign x coefficient shapes of 1..34 digits with and without trailing zeros, zero x exponents: %s) built with '
              'FeelNumber::from_string; Display, jsonify, Debug, decQuadToString text and from_str read-back compared with the model and checked '
-             'against the exact value; plus results of random arithmetic, FEEL literals of up to 34 significant digits (also under string(-x)) and '
-             'xsd input conversion.  Read-back: the raw datum decQuadFromString builds from every printed text is compared with `reread` (C07_read_back_datum), '
+             'against the exact value; plus results of random arithmetic.  Read-back: the raw datum decQuadFromString builds from every printed text is compared with `reread` (C07_read_back_datum), '
              'with the Coq reader model read_back on texts up to 90 characters plus long ones (41..2000 digits), and from_plain with the code on plain numerals of 1..60 digits '
-             'that need rounding (ties, all nines, subnormal); a numeral beyond the range is refused.  non-trivial = distinct (sign, length class, trailing zero, zero, notation branch)' % (
+             'that need rounding (ties, all nines, subnormal); a numeral beyond the range is refused.  LITERALS AND TYPED INPUT: numerals of 1..34 significant digits, of exactly 34, 35 and 36 and of more '
+             '(exact ties behind the 34th digit with both parities, near-ties 49.. / 50..1, all nines, carries), with up to 100 leading zeros behind the point and up to 60 trailing zeros (texts far longer than 42 characters), '
+             'the borders of the range (1E-6176, underflow to zero, 9.99..E6144, overflow), as FEEL literals (also under string(-x)), as xsd:decimal / xsd:integer / xsd:double texts with signs and exponent parts and through from_str: '
+             'the value against an independent decimal128 oracle (CPython decimal, precision 34, half-even: exact up to 34 digits, correctly rounded beyond, null / Err on overflow) and the raw datum '
+             '(coefficient and exponent) against the Coq reader model literal_value / from_text.  non-trivial = distinct (sign, length class, trailing zero, zero, notation branch) resp. '
+             '(path, significant-digit class, longer than 42 characters, sign, exponent part, overflow)' % (
                  'boundary bands and random' if ctx.quick else 'every exponent -6176..6111'),
         extra_cov={'exhaustive': False, 'branch_histogram': hist, 'grid_cases': len(cases)},
         assumptions=['decQuadFromString builds exactly the datum written in the operand text (checked through the independent Debug text and read-back)',
-                     'exactness is judged with CPython decimal comparisons (exact, context-free)'],
-        trusted=['decNumber C library (decQuadToString / decQuadFromString): modelled by to_sci and from_plain (= denotes, then round34), sampled']
+                     'exactness is judged with CPython decimal comparisons (exact, context-free); correct rounding of numerals with more than 34 digits with a CPython decimal context (IEEE decimal128 parameters)',
+                     'C07_literal_exact_upto_34 needs at most 6176 fraction digits: a literal below the smallest quantum 1E-6176 is rounded (to zero or to the subnormal grid) like every decimal128 result (C07_literal_underflow_refuted; generated)'],
+        trusted=['decNumber C library (decQuadToString / decQuadFromString): modelled by to_sci and from_plain / from_text (= all digits, exponent, then round34), sampled']
     )
 
 
@@ -379,12 +505,22 @@ def replay(ctx, path):
 
 
 MANIFEST = dict(
-    technique='Coq proof (case analysis over the notation branches, for every sign, coefficient and exponent) with model/code correspondence',
-    text='Theorems (coq/Props/C07.v, closed under the global context) hold for every sign, every coefficient and every exponent: the printed text is '
-         'produced without trap, is a JSON number without exponent, and denotes exactly the value; literal exactness; READ-BACK (C07_read_back): for every decimal128 datum the printed text, read by the model '
-         'of from_str (all digits as coefficient, one rounding to 34 digits), gives a datum of the same sign and exactly the same value — unchanged when the exponent is not positive, '
+    technique='Coq proof (case analysis over the notation branches, for every sign, coefficient and exponent; the reader as ONE correct rounding of the denoted value) with model/code correspondence',
+    text='Theorems (coq/Props/C07.v, closed under the global context). PRINTING, for every sign, every coefficient and every exponent: the printed text is '
+         'produced without trap, is `-?digits(.digits)?` without exponent and denotes exactly the value (C07_plain_exact, C07_no_underflow, C07_print_render); it is a JSON number by the grammar of RFC 8259 section 6 written as an inductive '
+         'predicate of its own, with the same value (C07_json_number_valid; C07_json_grammar_examples: the grammar rejects 0000, 0.000000-15, .5, 5., +1, 01). '
+         'LITERALS: a numeral (sign, integer digits, fraction digits, exponent part) DENOTES the value given by positional weights (text_num / 10^text_scale, defined without the reader); the reader takes exactly that value and rounds it once '
+         '(C07_reader_takes_the_denoted_value). For every FEEL literal before.after (digits only, before not empty; C07_literal_lexer_token ties before/after to the characters of the source text through the lexer model of C06) '
+         'with AT MOST 34 SIGNIFICANT DIGITS (leading zeros not counted) AND AT MOST 6176 FRACTION DIGITS the evaluator\'s number is the datum (all digits, minus the number of fraction digits): exactly the denoted value, nothing rounded or normalised '
+         '(C07_literal_exact_upto_34); for ANY number of digits it is THE correctly rounded decimal128 value in the sense of C02 (correctly_rounded: nearest, ties to even, subnormal grid, clamping), and the literal is null exactly when the value reaches '
+         'the overflow threshold (C07_literal_rounded_beyond_34, C07_literal_token_value, C07_numeral_nearest_even in integers). The hypothesis on the fraction digits is needed: 0.<6176 zeros>1 has one significant digit and is read as 0 '
+         '(C07_literal_underflow_refuted; decimal128 has no quantum below 1E-6176 — a limit of the sentence of the property, not of the code). The same for TYPED INPUT DATA and from_str: every text spelled sign? (digits [. digits*] | . digits+) ([eE] sign? digits+)? '
+         '(xsd:integer, xsd:decimal, finite xsd:double) is parsed as the numeral it spells (C07_text_grammar) and read exactly (C07_text_exact_upto_34: at most 34 significant digits and written exponent within -6176..6111; C07_text_exact_wide: clamped exponents) '
+         'or correctly rounded (C07_text_rounded_beyond_34). READ-BACK (C07_read_back): for every decimal128 datum the printed text, read by the model '
+         'of from_str (C07_reader_is_text_reader: the same reader), gives a datum of the same sign and exactly the same value — unchanged when the exponent is not positive, '
          'and for longer texts (positive exponent, up to 6145 digits) only appended zeros are dropped (C07_read_back_short / _long / _datum); the behaviour of the original '
-         'function is refuted on two classes. The model (decQuadToString as to-scientific-string + a transliteration of scientific_to_plain) is tied '
-         'to the code by comparing Display, jsonify, the raw scientific text and the datum read back from the printed text on a grid of signs, coefficient shapes and exponents, and the laws '
-         'are evaluated on the implementation output for grid values, arithmetic results, FEEL literals and xsd input.',
-    note='Trusted: Coq kernel + vm_compute, hand-written model (correspondence-checked), decNumber string conversion (sampled, not verified), CPython decimal for exact comparison, harness.')
+         'function is refuted on two classes. The models (decQuadToString as to-scientific-string + a transliteration of scientific_to_plain; decQuadFromString + finite test as all digits / exponent / one round34) are tied '
+         'to the code by comparing Display, jsonify, the raw scientific text and the raw datum read from printed texts, FEEL literals and typed input texts of 1..50 significant digits (exactly 34, 35, 36; ties; texts longer than 42 characters), and the laws '
+         'are evaluated on the implementation output against exact and correctly rounded values computed independently.',
+    note='C07_reader_is_denotes_then_round_def is definitional (marked _def). Trusted: Coq kernel + vm_compute, hand-written model (correspondence-checked), decNumber string conversion (sampled, not verified), CPython decimal for exact comparison and as decimal128 rounding oracle, harness. '
+         'Outside the reader model: Inf / NaN / sNaN texts (refused by from_str: checked by sampling only), exponent parts of more than a few digits are modelled mathematically (any Z) but sampled up to 7000.')
